@@ -359,6 +359,26 @@ static void sparse_case(std::size_t n, std::size_t nb, const std::vector<std::pa
   m2 = builder;
   if (m2.AsVector().size() != m.AsVector().size())
     out.tok("ORACLE_ASSIGN_SIZE");
+  {
+    // ... also onto a matrix that already holds another structure (full, one more block): nothing of it may remain,
+    // the diagonal slots included
+    auto fb = SM::Create(n).SetNumberOfBlocks(nb + 1).InitialValue(0.0);
+    for (std::size_t r = 0; r < n; ++r)
+      for (std::size_t c = 0; c < n; ++c)
+        fb = fb.WithElement(r, c);
+    SM m3(fb);
+    m3 = builder;
+    if (m3.AsVector().size() != m.AsVector().size())
+      out.tok("ORACLE_ASSIGN_SIZE:onto_existing");
+    for (std::size_t r = 0; r < n; ++r)
+      for (std::size_t c = 0; c < n; ++c)
+        if (m3.IsZero(r, c) != m.IsZero(r, c) ||
+            (!m.IsZero(r, c) && nb > 0 && m3.VectorIndex(nb - 1, r, c) != m.VectorIndex(nb - 1, r, c)))
+          out.tok("ORACLE_ASSIGN_TABLE:onto_existing");
+    for (std::size_t b = 0; b < nb; ++b)
+      if (m3.DiagonalIndices(b) != m.DiagonalIndices(b))
+        out.tok("ORACLE_ASSIGN_TABLE:diagonal_after_assignment");
+  }
   for (std::size_t r = 0; r < n; ++r)
     for (std::size_t c = 0; c < n; ++c)
       if (m2.IsZero(r, c) != m.IsZero(r, c) ||
